@@ -100,3 +100,11 @@ CLAIMS['C12'] = dict(
           'on-disk length equals the length in its name; name and header writers/readers walk the same token tables; range-index operations on bytes decoded from directory entries are guarded (no panic on '
           'planted names). Typestate and dominance facts hold for every history and for every content found on disk at re-open. Sub-range slicing arithmetic, model equivalence across histories and interleavings are not decided.'),
     note='K10 is decided in release semantics; the debug-only prefix assertion in initialize_state is listed as information.')
+CLAIMS['C08'] = dict(
+    technique='static analysis: (loop-relative) edge dominance of every acceptance-relevant comparison, taint from declared lengths to allocation sizes with enumerated sanitisers, error-variant mapping',
+    text=('Decides the acceptance half: if either validator accepts, every listed comparison passed on that path — per chunk (footer hash vs recomputed hash of the decoded bytes, boundary, unpacked offset, declared vs '
+          'actual length) and at the end (stream position, recomputed root vs provided hash and vs footer hash; with a parsed footer in the streaming validator also cashash, counts, boundary list, per-element hash and '
+          'unpacked offset); the root is computed from recomputed hashes; format errors (and only those) become rejections; input-declared counts reach allocation sizes only through prealloc_num_chunks or a validated '
+          'chunk header; the footer parser enforces agreement of its three counts. Completeness (every valid xorb accepted) and lz4_flex internals are not decided; panic-freedom is decided only for the allocation and '
+          'index sites covered, not for arithmetic.'),
+    note='Advisory (outside the named entry points): CasObjectInfoV1::deserialize_only_boundaries_section resizes by an unsanitised declared count.')
